@@ -22,6 +22,14 @@ var (
 
 // checkC03Decode: RFC-well-formed image -> decoded exactly to what it was built from;
 // canonical images re-encode byte-identically.
+// c03Preload: well-formed packets a receiver has decoded before the image under test (index = image length mod 3;
+// nil = fresh receiver only). Both carry two CSRCs, the marker, an extension block and three padding octets.
+var c03Preload = [3][]byte{
+	nil,
+	{0xB2, 0xE0, 0x12, 0x34, 1, 2, 3, 4, 5, 6, 7, 8, 0xA, 0xB, 0xC, 0xD, 0x1A, 0x1B, 0x1C, 0x1D, 0xBE, 0xDE, 0x00, 0x01, 0x11, 0x77, 0x88, 0x00, 9, 9, 9, 0, 0, 3},
+	{0xB2, 0xE0, 0x12, 0x34, 1, 2, 3, 4, 5, 6, 7, 8, 0xA, 0xB, 0xC, 0xD, 0x1A, 0x1B, 0x1C, 0x1D, 0x10, 0x00, 0x00, 0x01, 0x05, 0x01, 0x99, 0x00, 9, 9, 9, 0, 0, 3},
+}
+
 func checkC03Decode(r *run, c *WireCase) (CaseInfo, error) {
 	var ci CaseInfo
 	m := &c.Model
@@ -92,6 +100,34 @@ func checkC03Decode(r *run, c *WireCase) (CaseInfo, error) {
 	}
 	if err := m.compareHeader(&h, "Header.Unmarshal of "+hx(img)); err != nil {
 		return ci, err
+	}
+	// the same image decoded into a receiver that decoded another well-formed packet first (CSRCs, an extension
+	// block of the other form, padding): what the standard says about this image does not depend on the receiver
+	if pre := c03Preload[len(img)%3]; pre != nil {
+		ci.class("receiver-decoded-another-packet-first")
+		var q rtp.Packet
+		if err := q.Unmarshal(clone(pre)); err != nil {
+			return ci, failf("harness bug: preload image %s rejected: %v", hx(pre), err)
+		}
+		if err := q.Unmarshal(clone(img)); err != nil {
+			return ci, failf("well-formed image %s rejected by a receiver that decoded %s before: %v", hx(img), hx(pre), err)
+		}
+		if err := m.compareHeader(&q.Header, "decode of "+hx(img)+" into a receiver that decoded "+hx(pre)+" before"); err != nil {
+			return ci, err
+		}
+		if q.PaddingSize != m.PaddingSize || !bytes.Equal(q.Payload, m.Payload) {
+			return ci, failf("decode of %s into a receiver that decoded %s before: padding size %d payload %s, want %d %s", hx(img), hx(pre), q.PaddingSize, hx(q.Payload), m.PaddingSize, hx(m.Payload))
+		}
+		var hq rtp.Header
+		if _, err := hq.Unmarshal(clone(pre)); err != nil {
+			return ci, failf("harness bug: preload image %s rejected by Header.Unmarshal: %v", hx(pre), err)
+		}
+		if n, err := hq.Unmarshal(clone(img)); err != nil || n != w.HeaderLen {
+			return ci, failf("Header.Unmarshal of %s into a receiver that decoded %s before: n=%d err=%v, want %d", hx(img), hx(pre), n, err, w.HeaderLen)
+		}
+		if err := m.compareHeader(&hq, "Header.Unmarshal of "+hx(img)+" into a receiver that decoded "+hx(pre)+" before"); err != nil {
+			return ci, err
+		}
 	}
 	if c.canonical() {
 		out, err := p.Marshal()
@@ -335,7 +371,7 @@ func genStableCase(t *rapid.T) *StableCase {
 	return &StableCase{In: genHostile(t, "in")}
 }
 
-const ruleC03 = "decode: wire images laid out by the independent reference builder from the RFC 3550/8285 grammar (any CC, one-byte/two-byte/legacy block, 0-5 (occasionally 6-1000) zero bytes before elements, trailing zeros and zero words, arbitrary RTP pad bytes, optional id-15 element with arbitrary tail, one image in six repeating an element id, one in a hundred with 255-700 elements) must decode to the model; canonical layouts must re-encode byte-identically. stable: every accepted input (valid images and 1-3 byte mutations, random strings) must re-encode to an equal packet and a byte-stable image, or report invalid padding for P with zero count. appbits: the 15 profiles 0x1001-0x100F on a block that is well-formed both as RFC 3550 data and as one two-byte element: profile kept, payload right, re-encoded identically, and the raw view decodes and re-serialises the same block. views: One/TwoByteHeaderExtension and RawExtension on the exact block (fresh view values, or ones that decoded another block and answered GetIDs/Get before). Non-trivial = padding between elements / flush element / zero-length element / id-15 / CC>0 with extension and padding (decode), accepted input (stable), block with >=1 element (views); distinct = FNV-64 of the JSON case"
+const ruleC03 = "decode: wire images laid out by the independent reference builder from the RFC 3550/8285 grammar (any CC, one-byte/two-byte/legacy block, 0-5 (occasionally 6-1000) zero bytes before elements, trailing zeros and zero words, arbitrary RTP pad bytes, optional id-15 element with arbitrary tail, one image in six repeating an element id, one in a hundred with 255-700 elements) must decode to the model; canonical layouts must re-encode byte-identically. stable: every accepted input (valid images and 1-3 byte mutations, random strings) must re-encode to an equal packet and a byte-stable image, or report invalid padding for P with zero count. appbits: the 15 profiles 0x1001-0x100F on a block that is well-formed both as RFC 3550 data and as one two-byte element: profile kept, payload right, re-encoded identically, and the raw view decodes and re-serialises the same block. views: One/TwoByteHeaderExtension and RawExtension on the exact block (fresh view values, or ones that decoded another block and answered GetIDs/Get before). Non-trivial = padding between elements / flush element / zero-length element / id-15 / CC>0 with extension and padding (decode), accepted input (stable), block with >=1 element (views); distinct = FNV-64 of the JSON case; two cases in three also decode the image (Packet and Header) into a receiver that decoded another well-formed packet first (two CSRCs, marker, one-byte or two-byte extension block, padding) and compare it with the model in the same way"
 
 func TestC03(t *testing.T) {
 	r := begin(t, "C03", "exploration", ruleC03)
